@@ -157,7 +157,14 @@ class SymDomain(ConcDomain):
             return base.objs[idx]
         if isinstance(base, SArr):
             return SElem(base, idx, self, ir.locstr(e))
+        if isinstance(base, PtrInto) and isinstance(base.arr, SArr):
+            return SElem(base.arr, base.off + idx, self, ir.locstr(e))
         return ConcDomain.index(self, base, idx, e, fr)
+
+    def deref(self, x, e, fr):
+        if isinstance(x, PtrInto) and isinstance(x.arr, SArr):
+            return SElem(x.arr, x.off, self, ir.locstr(e))
+        return ConcDomain.deref(self, x, e, fr)
 
     def field_of(self, base, e, fr):
         if isinstance(base, PairObj):
